@@ -27,6 +27,7 @@ def handle (line : String) : String :=
   | ["spec.c01", bin, n, tb] => "ok " ++ specC01 (unhex bin) (parseNat n) (parseNat tb)
   | ["spec.c02", bin, pf, tracks] => "ok " ++ specC02 (unhex bin) (parseInt pf) (parseTracks tracks)
   | ["playfrom", p, evs] => "ok ev=" ++ showEvents (playFrom (parseInt p) (parseEvents evs))
+  | ["dumptext", bin] => "ok " ++ dumpTextOp (unhex bin)
   | ["spec.c20", bin, text] => "ok " ++ specC20 (unhex bin) (String.ofList ((utf8Decode (unhex text)).map Char.ofNat))
   | ["calc_length", str, tb, d] => s!"ok out={Sakura.Len.calcLength (parseInt tb) (parseInt d) (text str)}"
   | ["lenspec", tb, d, syn] => s!"ok out={lenSpec (parseInt tb) (parseInt d) syn}"
